@@ -1079,10 +1079,18 @@ func (p *scionPacketProcessor) processEPIC() disposition {
 
 	isPenultimate := p.path.IsPenultimateHop()
 	isLast := p.path.IsLastHop()
+	hopBeforeXover := int(p.path.PathMeta.CurrHF)
 
 	disp := p.process()
 	if disp != pForward {
 		return disp
+	}
+	if p.effectiveXover {
+		// The hop field that was validated last (and whose MAC is cached) is the one after the
+		// cross-over; process() may have moved the path pointer past it already.
+		validated := hopBeforeXover + 1
+		isPenultimate = validated == p.path.NumHops-2
+		isLast = validated == p.path.NumHops-1
 	}
 
 	if isPenultimate || isLast {
